@@ -448,3 +448,87 @@ func Sleep(d time.Duration) {
 	}
 	Yield()
 }
+
+// Timer replaces time.Timer. In Controlled mode it is virtual like the ticker: a receive from C is enabled once, at
+// whatever moment the receiving goroutine is scheduled ("the timer may fire at any time": every timing is explored
+// within the bounds), until it is stopped.
+type Timer struct {
+	C    *Chan[time.Time]
+	real *time.Timer
+	fn   *Thread
+	stop *Chan[struct{}]
+}
+
+// NewTimer replaces time.NewTimer.
+func NewTimer(d time.Duration) *Timer {
+	if mode != Controlled {
+		rt := time.NewTimer(d)
+		return &Timer{C: &Chan[time.Time]{ro: rt.C}, real: rt}
+	}
+	c := &Chan[time.Time]{}
+	c.core.cap = 1
+	c.core.ticker = true
+	if !sc.dead {
+		c.core.obj.Fresh()
+		c.core.ticks = 1
+	}
+	return &Timer{C: c}
+}
+
+// After replaces time.After.
+func After(d time.Duration) *Chan[time.Time] { return NewTimer(d).C }
+
+// Tick replaces time.Tick.
+func Tick(d time.Duration) *Chan[time.Time] { return NewTicker(d).C }
+
+// Stop replaces (*time.Timer).Stop.
+func (t *Timer) Stop() bool {
+	if t.real != nil {
+		return t.real.Stop()
+	}
+	if t.stop != nil {
+		// AfterFunc: tell the waiting thread to go away; it has not run f if the stop arrives first
+		active := t.C.core.ticks > 0
+		t.C.core.ticks = 0
+		if active && !sc.dead {
+			t.stop.Close()
+		}
+		return active
+	}
+	active := t.C.core.ticks > 0
+	t.C.core.ticks = 0
+	return active
+}
+
+// Reset replaces (*time.Timer).Reset.
+func (t *Timer) Reset(d time.Duration) bool {
+	if t.real != nil {
+		return t.real.Reset(d)
+	}
+	active := t.C.core.ticks > 0
+	if t.stop == nil {
+		t.C.core.ticks = 1
+	}
+	return active
+}
+
+// AfterFunc replaces time.AfterFunc: a goroutine of the library that runs f when the (virtual) timer fires.
+func AfterFunc(d time.Duration, f func()) *Timer {
+	if mode != Controlled {
+		return &Timer{real: time.AfterFunc(d, f)}
+	}
+	t := NewTimer(d)
+	t.stop = MakeChan[struct{}](0)
+	tm := t
+	t.fn = GoNamed("afterfunc", func() {
+		s := Select(false, nil, tm.C.RecvCase(), tm.stop.RecvCase())
+		switch s.Index() {
+		case 0:
+			SelRecv(s, tm.C)
+			f()
+		default:
+			SelRecv2(s, tm.stop)
+		}
+	})
+	return t
+}
